@@ -52,6 +52,26 @@ pub fn exercise(bytes: &[u8]) -> usize {
             let _ = format!("{:?}", im);
             let _ = im.as_table().iter().count();
             let _ = im.trailing().as_str();
+            // printing the parts of an immutable document (their text still lives in the source buffer)
+            let _ = im.to_string();
+            let _ = im.as_item().to_string();
+            for (k, item) in im.as_table().iter() {
+                let _ = (k.len(), item.to_string(), format!("{:?}", item).len());
+                if let Some(t) = item.as_table_like() {
+                    for (_, x) in t.iter() {
+                        let _ = x.to_string();
+                    }
+                }
+                if let Some(a) = item.as_array() {
+                    let _ = a.to_string();
+                    for v in a.iter() {
+                        let _ = v.to_string();
+                    }
+                }
+                if let Some(a) = item.as_array_of_tables() {
+                    let _ = a.to_string();
+                }
+            }
             let c = im.clone();
             let m = im.into_mut();
             let _ = m.to_string();
@@ -647,7 +667,7 @@ pub fn typed_exercise(bytes: &[u8]) -> usize {
 
 /// every shape a value can have, under the key the typed targets look at
 fn typed_shape_docs() -> Vec<String> {
-    let lits = ["{}", "[]", "[{}]", "[[]]", "[[], {}]", "{a = {}}", "{k = {}}", "1", "-1", "1.5", "nan", "true", "\"s\"", "\"\"", "'c'", "1979-05-27", "07:32:00", "1979-05-27T07:32:00", "1979-05-27T07:32:00.5Z", "[1979-05-27, {}]", "[1979-05-27, 07:32:00]", "{\"$__toml_private_datetime\" = \"x\"}", "{\"$__toml_private_datetime\" = 1}", "{\"$__toml_private_datetime\" = \"1979-05-27\", a = 1}", "\"Unit\"", "{New = {}}", "{New = 1979-05-27}", "{Tup = []}", "{Tup = [1]}", "{Str = {}}", "{Str = {a = {}}}", "{Unit = 1}", "{}"];
+    let lits = ["{}", "[]", "[{}]", "[[]]", "[[], {}]", "{a = {}}", "{k = {}}", "1", "-1", "1.5", "nan", "true", "\"s\"", "\"\"", "'c'", "1979-05-27", "07:32:00", "1979-05-27T07:32:00", "1979-05-27T07:32:00.5Z", "[1979-05-27, {}]", "[1979-05-27, 07:32:00]", "{\"$__toml_private_datetime\" = \"x\"}", "{\"$__toml_private_datetime\" = \"07:32:00Z\"}", "{\"$__toml_private_datetime\" = \"07:32:00+01:00\"}", "{\"$__toml_private_datetime\" = \"1979-05-27Z\"}", "{\"$__toml_private_datetime\" = \"1979-05-27T07:32:00\"}", "{\"$__toml_private_datetime\" = \"07:32:00\"}", "{\"$__toml_private_datetime\" = 1}", "{\"$__toml_private_datetime\" = \"1979-05-27\", a = 1}", "\"Unit\"", "{New = {}}", "{New = 1979-05-27}", "{Tup = []}", "{Tup = [1]}", "{Str = {}}", "{Str = {a = {}}}", "{Unit = 1}", "{}"];
     let mut out = Vec::new();
     for l in lits {
         out.push(format!("k = {}\n", l));
@@ -691,7 +711,7 @@ fn typed(rep: &mut Report, tier: Tier) {
     let cases = typed_shape_docs();
     let f = |s: &str, acc: &mut Acc| typed_eval(s.as_bytes(), "U-typed", acc);
     let (total, acc) = crate::universe::sweep_list(&cases, &f);
-    rep.absorb("U-typed", "33 value shapes (empty containers, scalars, the four date-time kinds, the private date-time struct spelled by hand, enum payloads) x 8 frames under the keys the targets read, decoded into 26 target types through 3 routes", total, true, t0, acc);
+    rep.absorb("U-typed", "38 value shapes (empty containers, scalars, the four date-time kinds, the private date-time struct spelled by hand, enum payloads) x 8 frames under the keys the targets read, decoded into 26 target types through 3 routes", total, true, t0, acc);
     docu::run(rep, tier, &["tok-small", "stmt-small", "dt", "edge"], &typed_eval);
 }
 
